@@ -215,6 +215,17 @@ def run(ctx):
                         n_checks += 1
                         if realfuzz.canon(t.parameter_values[k]) != before:
                             done = True
+                            # ... a key that is already set can be given another value (the new value wins)
+                            try:
+                                k0_, v0_ = next(iter(v[2].items()))
+                                v1_ = v0_ * 1.02 + 0.002
+                                t.update(**{k: {k0_: v1_}})
+                                n_checks += 1
+                                if t.parameter_values[k].get(k0_) != v1_:
+                                    viol(f"{cn}/dict-key-not-updatable/{k}", f"{cn}: update({k}={{{k0_!r}: {v1_}}}) after update({k}={{{k0_!r}: {v0_}}}) leaves {k}[{k0_!r}] = {t.parameter_values[k].get(k0_)!r}",
+                                         {"class": cn, "param": k, "key": k0_})
+                            except Exception:
+                                pass
                             # ... and changed back: an empty dict is the documented way to clear a *_params dictionary
                             try:
                                 t.update(**{k: {}})
